@@ -544,11 +544,13 @@ def make_text_region_text(lines: List[pdm.PageXMLTextLine],
                                                                            word_break_chars=word_break_chars,
                                                                            debug=False)
                     # print(do_merge, merge_word)
-                    prev_line_text = make_line_text(prev_line, do_merge, prev_words[-1], merge_word,
+                    # a line of only whitespace has no words
+                    end_word = prev_words[-1] if len(prev_words) > 0 else ''
+                    prev_line_text = make_line_text(prev_line, do_merge, end_word, merge_word,
                                                     word_break_chars=word_break_chars)
                     if remove_prefix_word_break and prev_line_text.startswith('„'):
                         prev_line_text = prev_line_text[1:]
-                    if '„' in word_break_chars and prev_words[-1].endswith('„') and curr_line.text.startswith('„'):
+                    if '„' in word_break_chars and end_word.endswith('„') and curr_line.text.startswith('„'):
                         remove_prefix_word_break = True
                     else:
                         remove_prefix_word_break = False
